@@ -17,11 +17,14 @@ theorem prefix_of_snoc_prefix {α : Type} {done ts : List α} {t : α} (h : done
 /-- A token that changes neither the tree nor the spans. -/
 theorem passive_dinv {ts done : List Token} {b b' : Builder} {t : Token} (h : DInv ts done b)
     (hpre : done ++ [t] <+: ts) (ht : t.passive = true) (hc : b'.cur = b.cur) (hp : b'.parents = b.parents)
-    (hs : b'.spans = b.spans) (hns : b'.nsStack = b.nsStack) (he : EnvApp b.env b'.env)
+    (hs : b'.spans = b.spans) (hns : b'.nsStack = b.nsStack) (hop : b'.openPrefixes = b.openPrefixes)
+    (he : EnvApp b.env b'.env)
     (heb : ∀ e, b'.eb = some e → EbFacts ts e) : DInv ts (done ++ [t]) b' := by
-  refine ⟨hpre, ?_, heb, ?_, ?_⟩
+  refine ⟨hpre, ?_, ?_, heb, ?_, ?_⟩
   · rw [hc, hp, hs, hns]
     exact stackDesc_mono he _ _ (fun _ _ => rfl) h.stack
+  · rw [hc, hp, hs, hop]
+    exact pfxDesc_mono he _ _ (fun _ _ => rfl) h.pfx
   · intro s ks more hr
     rw [hc] at hr
     have : b'.curPath = b.curPath := by simp only [Builder.curPath, hp]
@@ -42,7 +45,7 @@ theorem addText_dinv {ts done : List Token} {b : Builder} (h : DInv ts done b) {
   unfold Builder.addText
   split
   · next s ks more hr =>
-    exact mergeText_dinv h hpre hreal hspan hval hr rfl rfl rfl rfl rfl rfl
+    exact mergeText_dinv h hpre hreal hspan hval hr rfl rfl rfl rfl rfl rfl rfl
   · -- a new text node
     have hnone : b.spans.get ⟨b.curPath ++ [b.cur.rkids.length], .text⟩ = none := by
       apply get_none_of_not_hasKey
@@ -117,7 +120,7 @@ theorem step_dinv {ts done : List Token} {b b' : Builder} (t : Token) (hok : Bui
           · cases hr
           · simp only [Step.ok.injEq] at hr
             subst hr
-            refine passive_dinv h hpre rfl rfl rfl rfl rfl
+            refine passive_dinv h hpre rfl rfl rfl rfl rfl rfl
               ((internPrefix_app _ _).trans (internNamespace_app _ _)) ?_
             intro e he
             simp only [Option.some.injEq] at he
@@ -140,7 +143,7 @@ theorem step_dinv {ts done : List Token} {b b' : Builder} (t : Token) (hok : Bui
             · next v hv =>
               simp only [Step.ok.injEq] at hr
               subst hr
-              refine passive_dinv h hpre rfl rfl rfl rfl rfl (EnvApp.refl _) ?_
+              refine passive_dinv h hpre rfl rfl rfl rfl rfl rfl (EnvApp.refl _) ?_
               intro e he
               simp only [Option.some.injEq] at he
               subst he
@@ -165,7 +168,7 @@ theorem step_dinv {ts done : List Token} {b b' : Builder} (t : Token) (hok : Bui
     · next hemp =>
       simp only [Step.ok.injEq] at hr
       subst hr
-      exact passive_dinv h hpre (by simpa [Token.passive] using hemp) rfl rfl rfl rfl (EnvApp.refl _) h.eb
+      exact passive_dinv h hpre (by simpa [Token.passive] using hemp) rfl rfl rfl rfl rfl (EnvApp.refl _) h.eb
     · next hemp =>
       simp only [Step.ok.injEq] at hr
       subst hr
@@ -174,7 +177,7 @@ theorem step_dinv {ts done : List Token} {b b' : Builder} (t : Token) (hok : Bui
   | elementStart pfx loc sp =>
     simp only [Builder.stepCore, Builder.element, Step.ok.injEq] at hr
     subst hr
-    refine passive_dinv h hpre rfl rfl rfl rfl rfl (EnvApp.refl _) ?_
+    refine passive_dinv h hpre rfl rfl rfl rfl rfl rfl (EnvApp.refl _) ?_
     intro e he
     simp only [Option.some.injEq] at he
     subst he
@@ -202,8 +205,17 @@ theorem step_dinv {ts done : List Token} {b b' : Builder} (t : Token) (hok : Bui
           simp only at hr
           split at hr
           · cases hr
-          · exact leave_dinv (b1 := { b with env := env1, nsStack := b.nsStack.tail, openPrefixes := b.openPrefixes.tail })
-              h hpre hid htok (by intro hh; cases hh) rfl rfl rfl rfl rfl happ hr
+          · next hcond =>
+            have hcond' : id = nameId ∧ samePrefix b.openPrefixes pfx.text = true := by
+              simpa using hcond
+            refine leave_dinv (b1 := { b with env := env1, nsStack := b.nsStack.tail, openPrefixes := b.openPrefixes.tail })
+              h hpre hid htok (by intro hh; cases hh) rfl rfl rfl rfl rfl rfl happ ?_ hr
+            intro q l hql
+            simp only [ElementEnd.close.injEq] at hql
+            obtain ⟨rfl, rfl⟩ := hql
+            refine ⟨by simpa [samePrefix] using hcond'.2, ?_⟩
+            obtain ⟨_, ns, hns, _⟩ := (elementNameId_facts hn).2
+            exact ⟨ns, by rw [hcond'.1]; exact hns⟩
     | empty =>
       simp only [Builder.stepCore] at hr
       cases hb : b.openElement with
@@ -215,7 +227,8 @@ theorem step_dinv {ts done : List Token} {b b' : Builder} (t : Token) (hok : Bui
         have hel : b1.cur.value.isElement = true := by rw [hid]; rfl
         simp only [hel, if_true] at hr
         exact leave_dinv (b1 := { b1 with nsStack := b1.nsStack.tail, openPrefixes := b1.openPrefixes.tail })
-          h1 hpre hid htok (by intro hh; cases hh) rfl rfl rfl rfl rfl (EnvApp.refl _) hr
+          h1 hpre hid htok (by intro hh; cases hh) rfl rfl rfl rfl rfl rfl (EnvApp.refl _)
+          (fun _ _ hh => by cases hh) hr
       | err e env => rw [hb] at hr; cases hr
       | panic => rw [hb] at hr; cases hr
   | comment t sp =>
@@ -273,14 +286,15 @@ theorem step_dinv {ts done : List Token} {b b' : Builder} (t : Token) (hok : Bui
     · cases hr
     · simp only [Step.ok.injEq] at hr
       subst hr
-      exact passive_dinv h hpre rfl rfl rfl rfl rfl (EnvApp.refl _) h.eb
+      exact passive_dinv h hpre rfl rfl rfl rfl rfl rfl (EnvApp.refl _) h.eb
   | dtdStart sp => simp [Builder.stepCore] at hr
   | dtdEnd sp => simp [Builder.stepCore] at hr
   | emptyDtd sp => simp [Builder.stepCore] at hr
   | entityDecl sp => simp [Builder.stepCore] at hr
 
 theorem dinv_new (ts : List Token) (env : Env) : DInv ts [] (Builder.new env) := by
-  refine ⟨List.nil_prefix, ⟨⟨trivial, rfl⟩, trivial⟩, (fun e he => by cases he), ?_, ?_⟩
+  refine ⟨List.nil_prefix, ⟨⟨trivial, rfl⟩, trivial⟩, ?_, (fun e he => by cases he), ?_, ?_⟩
+  · simp [Builder.new, PfxDesc]
   · intro s ks more hr; cases hr
   · intro k hk; simp [HasKey, Builder.new, SpanMap.get] at hk
 
